@@ -209,6 +209,7 @@ def exc_name(e):
 class Labels:
     """order-preserving realisation of abstract ids as concrete Python labels (DESIGN.md §3.1)"""
     STYLES = ("int", "str", "tuple", "mixed")
+    STYLES_NUM = STYLES + ("num",)      # opt-in: label sets whose native order differs from ordering_key's
 
     def __init__(self, style, n=64):
         self.style = style
@@ -218,6 +219,10 @@ class Labels:
             self.l = ["v%03d" % i for i in range(n)]
         elif style == "tuple":
             self.l = [("t", i) for i in range(n)]
+        elif style == "num":
+            # mixed numeric types: ordering_key sorts by str(type) first ("<class 'float'>" < "<class 'int'>"), while the
+            # native "<" interleaves them (0 < 0.5 < 1 < 1.5 ...): ids 0..3 are floats, ids 4.. are ints
+            self.l = [i + 0.5 for i in range(4)] + list(range(n - 4))
         else:  # ordering_key sorts by str(type): int < str < tuple
             self.l = [i for i in range(3)] + ["s%03d" % i for i in range(3, 6)] + [("t", i) for i in range(6, n)]
         self.inv = {x: i for i, x in enumerate(self.l)}
